@@ -1,7 +1,167 @@
 import Aqv.Base.Proto
-open Aqv Aqv.Proto
+import Aqv.Model.ChainDb
+import Aqv.Model.ChainWriter
+open Aqv Aqv.Proto Aqv.ChainDb
 
-/-- stub driver for C04 (answers every case line with "bad-op"); replaced when the property is built. -/
-def handle (l : String) : String := let _ := l; "bad-op\tagree"
+/-!
+  Model driver for C04.  One case line per scenario:
+
+    trace <archive 0|1> <ghost0> | <initial writes> | <steps> | <observed events>  TAB  V=<variant> L=ok R=<per-prefix>
+
+  * writes: `h<id>:<parent>:<num>:<root>` `t<id>` `c<num>:<id>` `y<id>:<tx>.<tx>…` `r<id>` `H<id>:<num>` `l<tx>:<id>` `B<id>` `E<id>`
+    `F<id>` `n<id>:<c>.<c>…` `s<id>` `o`; a leading `-` is a deletion.
+  * events: `p=<w>@<ghost>` `d=<w>@<ghost>` `b=<w>,<w>,…@<ghost>`
+  * steps: `I/<id>:<parent>:<num>:<root>:<tx.tx>/<canon>/<flush>/<flush>…`  `N/<blk>` (WriteBlockWithoutState)  `S/<flush>/…`  `Z/<n>`  `O` (NewBlockChain)
+  Output: which writer variant reproduces the observed log (`V=`), `L=ok` or the first differing event, and for every
+  prefix the outcome of `recover` (`k<head>` / `P` / `E`) followed by `+`/`-` = `imageOK`.
+-/
+
+def natOf (s : String) : Nat := s.toNat?.getD 0
+
+def splitNats (s : String) (sep : Char) : List Nat := ((s.split (· == sep)).toList.map (·.toString)).filter (· ≠ "") |>.map natOf
+
+def strSplit (s : String) (sep : Char) : List String := (s.split (· == sep)).toList.map (·.toString)
+
+/-- parse one write token -/
+def parseW (t : String) : Option (Key × Option Val) :=
+  let (isDel, t) := if t.startsWith "-" then (true, strDrop t 1) else (false, t)
+  match t.toList with
+  | [] => none
+  | c :: rest =>
+    let body := String.ofList rest
+    let fs := strSplit body ':'
+    let n (i : Nat) : Nat := natOf (fs.getD i "")
+    let mk (k : Key) (v : Val) : Option (Key × Option Val) := some (k, if isDel then none else some v)
+    match c with
+    | 'h' => mk (.header (n 0)) (.hdr (n 1) (n 2) (n 3))
+    | 't' => mk (.td (n 0)) .blob
+    | 'c' => mk (.canon (n 0)) (.ref (n 1))
+    | 'y' => mk (.body (n 0)) (.txs (splitNats (fs.getD 1 "") '.'))
+    | 'r' => mk (.receipts (n 0)) .blob
+    | 'H' => mk (.hashNum (n 0)) (.num (n 1))
+    | 'l' => mk (.lookup (n 0)) (.ref (n 1))
+    | 'B' => mk .lastBlock (.ref (n 0))
+    | 'E' => mk .lastHeader (.ref (n 0))
+    | 'F' => mk .lastFast (.ref (n 0))
+    | 'n' => mk (.node (n 0)) (.node (splitNats (fs.getD 1 "") '.'))
+    | 's' => mk (.preimage (n 0)) .blob
+    | 'o' => mk .other .blob
+    | _ => none
+
+def parseWs (s : String) : Writes := ((strSplit s ',').filter (· ≠ "")).filterMap parseW
+
+def parseEvent (t : String) : Option GEvent :=
+  match strSplit t '@' with
+  | [e, g] =>
+    let kind := e.take 2 |>.toString
+    let rest := strDrop e 2
+    if kind == "p=" then
+      match parseW rest with
+      | some (k, some v) => some (.put k v, natOf g)
+      | _ => none
+    else if kind == "d=" then
+      match parseW rest with
+      | some (k, none) => some (.del k, natOf g)
+      | _ => none
+    else if kind == "b=" then some (.batch (parseWs rest), natOf g)
+    else none
+  | _ => none
+
+def parseBlk (s : String) : Blk :=
+  let fs := strSplit s ':'
+  let n (i : Nat) : Nat := natOf (fs.getD i "")
+  { hash := n 0, parent := n 1, num := n 2, root := n 3, txs := splitNats (fs.getD 4 "") '.' }
+
+def parseStep (t : String) : Option Step :=
+  match strSplit t '/' with
+  | "I" :: b :: c :: fl => some (.importBlock (parseBlk b) (c == "1") (fl.map parseWs))
+  | ["N", b] => some (.sideNoState (parseBlk b))
+  | "S" :: fl => some (.stop (fl.map parseWs))
+  | ["Z", n] => some (.setHead (natOf n))
+  | ["O"] => some .opened
+  | _ => none
+
+/-! rendering (canonical: the writes of a batch are compared as a multiset) -/
+
+def renderKey : Key → String
+  | .header h => s!"h{h}" | .td h => s!"t{h}" | .canon n => s!"c{n}" | .body h => s!"y{h}" | .receipts h => s!"r{h}"
+  | .hashNum h => s!"H{h}" | .lookup t => s!"l{t}" | .lastBlock => "B" | .lastHeader => "E" | .lastFast => "F"
+  | .node h => s!"n{h}" | .preimage h => s!"s{h}" | .other => "o"
+
+def renderVal : Val → String
+  | .hdr p n r => s!":{p}:{n}:{r}" | .num n => s!":{n}" | .ref h => s!":{h}" | .txs ts => ":" ++ ".".intercalate (ts.map toString)
+  | .node cs => ":" ++ ".".intercalate (cs.map toString) | .blob => ""
+
+def renderW : Key × Option Val → String
+  | (k, some v) => renderKey k ++ renderVal v
+  | (k, none) => "-" ++ renderKey k
+
+def insertSorted (x : String) : List String → List String
+  | [] => [x]
+  | y :: ys => if x ≤ y then x :: y :: ys else y :: insertSorted x ys
+
+def sortStrs (xs : List String) : List String := xs.foldr insertSorted []
+
+def renderEvent : GEvent → String
+  | (.put k v, g) => s!"p={renderW (k, some v)}@{g}"
+  | (.del k, g) => s!"d={renderW (k, none)}@{g}"
+  | (.batch ws, g) => "b=" ++ ",".intercalate (sortStrs (ws.map renderW)) ++ s!"@{g}"
+
+def firstDiff : List String → List String → Nat → Option String
+  | [], [], _ => none
+  | a :: as, b :: bs, i => if a == b then firstDiff as bs (i + 1) else some s!"{i}:model={a}:observed={b}"
+  | a :: _, [], i => some s!"{i}:model={a}:observed=end"
+  | [], b :: _, i => some s!"{i}:model=end:observed={b}"
+
+def outcomeStr : Outcome → String
+  | .ok h _ => s!"k{h}"
+  | .errNoGenesis => "E"
+  | .panicReset => "P"
+  | .panicRepair => "P"
+
+/-- per-prefix `recover` outcome and `imageOK` -/
+def prefixes (archive : Bool) : Db → Hash → List GEvent → List String
+  | db, g, [] => [outcomeStr (recover db) ++ (if imageOK archive db g then "+" else "-")]
+  | db, g, (e, g') :: rest =>
+    (outcomeStr (recover db) ++ (if imageOK archive db g then "+" else "-")) :: prefixes archive (apply db e) g' rest
+
+/-- does the Go string contain a bad prefix where the model's image is OK?  (both are lists of `k<id>+` style tokens) -/
+def contradicts : List String → List String → Bool
+  | m :: ms, g :: gs => (m.endsWith "+" && (!(g.endsWith "+") || m != g)) || contradicts ms gs
+  | _, _ => false
+
+def handle (l : String) : String :=
+  let (inp, go) := splitCase l
+  match inp.splitOn " | " with
+  | [hd, initS, stepsS, evS] =>
+    match fields hd with
+    | ["trace", ar, g0] =>
+      let archive := ar == "1"
+      let ghost0 := natOf g0
+      let db0 : Db := (parseWs (",".intercalate (fields initS))).foldl applyW []
+      let steps := (fields stepsS).filterMap parseStep
+      let obs := (fields evS).filterMap parseEvent
+      if steps.length != (fields stepsS).length || obs.length != (fields evS).length then "bad-parse\tspec-ok"
+      else
+        let obsR := obs.map renderEvent
+        let variants : List (String × Variant) :=
+          [("asWritten", .asWritten), ("batchFirst", ⟨true, false⟩), ("atomicInsert", ⟨false, true⟩), ("fixed", .fixed)]
+        let diffs := variants.map fun (nm, v) => (nm, firstDiff ((writeLog v db0 ghost0 steps).map renderEvent) obsR 0)
+        let matching := (diffs.filter fun d => d.2.isNone).map (·.1)
+        let (v, ltxt) :=
+          if matching.isEmpty then
+            ("none", "diff" ++ String.join (diffs.map fun d => s!"[{d.1}@{d.2.getD ""}]"))
+          else ("+".intercalate matching, "ok")
+        let pr := prefixes archive db0 ghost0 obs
+        let m := s!"V={v} L={ltxt} R=" ++ " ".intercalate pr
+        -- Go: V=… L=ok R=tok tok …
+        let goR := match go.splitOn " R=" with
+          | [_, r] => fields r
+          | _ => []
+        if m == go then m ++ "\tagree"
+        else if contradicts pr goR then m ++ "\tspec-reject:image-satisfies-LocalOK-but-real-reopen-fails"
+        else m ++ "\tspec-ok"
+    | _ => "bad-op\tagree"
+  | _ => "bad-op\tagree"
 
 def main : IO Unit := runLines handle
